@@ -38,6 +38,24 @@ CHECKS = {
  'C13': dict(cat='exploration', technique='runtime monitoring: operation histories against an executable word-level model; accessor table check against the published field table',
              text='A generated driver (API surface scraped, no expectations) executes sequences of typed setters (builder and &mut forms), getters, dirty_reset, mark_fully_dirty, has_any_dirty_fields, is_bit_dirty and writes (mask embedded in SMSG_UPDATE_OBJECT through the public API, decoded again by the real decoder); the checker replays the sequence on a three-map model (present, dirty, u32 words) whose offsets/sizes/types come only from the published table update-mask.md, and compares every getter, the written block count/mask bits/ascending values, the frame size, and decode(write). Exhaustive to depth 3-4 over representative fields plus seeded random sequences; every generated accessor is exercised once with a tagged value against its table row.',
              note='Trusted: the published table wowm_language/src/types/update-mask.md as the field-table oracle, ref/codec.py UpdateMask decoder. Array rows reachable only at element 0 and rows that overlap in the table are reported, not judged.', ref='3.C13'),
+ 'C07': dict(cat='exploration', technique='runtime monitoring of freshly generated codecs: random wowm programs through the real generator, rustc, and the C01 round-trip monitor with the reference model as oracle',
+             text='Seeded random wowm programs (enums/flags with decimal/hex/binary values and signed bases, structs, fixed/variable/endless arrays, if / else-if / else on enums with ==, ||, != and on flags with &, nesting, optional tails, constants, upcasts, built-in types) are transplanted onto existing leaf messages of a scratch copy; the real generator must accept them, the regenerated crates plus the codec driver must compile, and every canonical encoding the reference model derives from the scratch definitions must round-trip through the new codecs. Failures are attributed per program (generator stderr / bisection, rustc diagnostics by generated file, first mismatching vector); construct classes recorded as open known findings are kept out of the random batches and exercised by one probe program each.',
+             note='Trusted: reference model (ref/), the attribution heuristics; programs are drawn from the feature subset the corpus uses (field and type names are letter-only because the Wireshark printer keys its registry on names cut at the first digit).', ref='3.C07'),
+ 'C11': dict(cat='exploration', technique='runtime monitoring: generated driver calls every enum conversion on exhaustive / boundary / random integers; oracle from the wowm text',
+             text='A driver whose source is generated from the scraped API surface calls from_int, as_int, variants() and every existing TryFrom<int> impl of all 300 public enum types: all values for 8- and 16-bit bases (and, in the thorough tier, all 2^32 from_int inputs of u32-based enums), declared values, neighbours, width aliases, extremes and seeded random values through all source types. Success must coincide with the declared set (same-width other-signedness sources reinterpreted bit for bit), the variant must carry that value and name, variants() must list each enumerator once in declaration order, and the error must report the input.',
+             note='Trusted: ref.model / ref.codec.definer_values as the wowm reading; the PascalCase name rule is only used where it is injective. Crate-private enums are covered through C01/C04.', ref='3.C11'),
+ 'C12': dict(cat='exploration', technique='runtime monitoring: generated driver applies every flag accessor/operator to raw values; oracle = integer set algebra over the wowm bit values',
+             text='For all 91 flag types (56 plain, 35 synthesised message-local structs) constants, empty/all/is_empty, new_/is_/get_/set_/clear_ for every enumerator, the bit operators and assign forms, and From/TryFrom for nine integer types are applied to zero, all-ones, every single bit, every declared constant and seeded random raw values (8-bit carriers exhaustively, 16-bit in thorough); results (bulk streams via CRC-32 digests reproduced in Python, mismatches localised per value) must equal the integer operation on the declared bits.',
+             note='Trusted: ref.model as the wowm reading; CRC-32 digests as fingerprints of result streams; as_int of crate-private types observed through LowerHex/Debug.', ref='3.C12'),
+ 'C16': dict(cat='fault_enumeration', technique='runtime monitoring: fault injection on the wowm source tree, real generator as system under test, exit status + stderr oracle',
+             text='One textual mutation operator per static rule (22 operators) is applied at sites chosen from an independent position-aware parse of the corpus (top level, inside structs used by messages, in if / else-if / else / optional blocks, files with #tag_all, paste_versions objects, login and world); a mutant runs only if an independent reference checker says it breaks exactly that rule. The real generator must stop with the rule\'s exit status and name the mutated object; the unmodified tree must exit 0 in the same session; the rule -> status table is cross-checked against the repository\'s own tests/must_err pairs.',
+             note='Trusted: the rule -> exit status table transcribed from error_printer/mod.rs (a stated assumption; the docs do not publish the numbers), ref/mutate.py reference checker.', ref='3.C16'),
+ 'C17': dict(cat='exploration', technique='runtime monitoring with clang ASan+UBSan: the generated C dissector fragments compiled against a recording epan shim, event stream judged against reference field maps',
+             text='The dissector fragments emitted by the current generator are compiled with clang (ASan+UBSan, -Werror=implicit-function-declaration) against a stand-in for the epan API that logs every ptvcursor/tvb call (hf, offset, length, encoding) and refuses reads past the buffer; canonical vectors for all Vanilla world messages (both directions) and login versions 2-8 are dissected and the event stream is tiled against the reference field map: leaf order, offsets, widths, endianness flag, branches, exact stop at the body end; every referenced hf/enumerator must be declared and registered; sanitizer reports fail the run.',
+             note='Trusted: csrc/ws_shim.c (epan semantics modelled from its documented behaviour), reference field maps, zlib for compressed members.', ref='3.C17'),
+ 'C18': dict(cat='exploration', technique='runtime monitoring of the generator output: every re-printed wowm block parsed back with the independent parser and compared as neutral records; tables and examples against the reference decoder',
+             text='All documentation pages and Rust doc comments emitted by a real generator run are read back: each fenced wowm block is parsed with the reference parser and must equal the source object\'s neutral record (name, kind, opcode, base type, enumerators and values, member order and types, conditions); body tables must list the members in definition order with the constant sizes the reference model computes (variable members marked as such); each example\'s annotated byte groups must concatenate to the test vector and follow the order in which the reference decoder visits the fields. Exhaustive over ~2,060 sections, ~2,050 doc comments and 175 examples. Offsets are observed, not judged.',
+             note='Trusted: ref/wowm.py, ref/neutral.py, ref/docview.py, ref/sizes.py.', ref='3.C18'),
 }
 PENDING = 'check not built yet (work in progress; DESIGN.md section 8 gives the build order)'
 
